@@ -1494,6 +1494,7 @@ def run(ctx):
     ctx.note("git_version", cgit.version())
     ctx.parallel(_part_refs_race, [(rd, wr, ctx.scale(150, 4000)) for rd in sorted(RACE_READERS) for wr in sorted(RACE_WRITERS)])
     ctx.parallel(_fixed_part, [[c] for c in FIXED])
+    ctx.parallel(_part_idx_versions, [0, 1, 2, 3])
     per = ctx.scale(75, 2000)
     ctx.parallel(_part, [per] * 16)
     ab = ctx.extra.get("abandoned", 0)
@@ -1501,7 +1502,75 @@ def run(ctx):
         raise HarnessError(f"{ab} of {ctx.evaluations} cases abandoned because a script operation raised: see labels")
 
 
+# ---------------------------------------------------------------------------
+# the pack index version, on offsets no generated pack reaches
+#
+# "the pack index version never changes the answer to object lookup": the same (name, offset, crc) table written as v1,
+# v2 and v3 index must answer every lookup with the offset that was written - also where the 31-bit inline field of
+# v2/v3 ends and the 64-bit table begins, which needs packs of 2 GiB and more, so the tables are synthetic.
+
+_IDX_OFFSETS = [12, 2**31 - 1, 2**31, 2**31 + 1, 2**32 - 1, 2**32, 2**32 + 1, 2**40 + 7, 2**63 - 1]
+
+
+def check_index_versions(ctx, case, check="idx-versions"):
+    import io
+
+    from dulwich.object_format import DEFAULT_OBJECT_FORMAT
+    from dulwich.pack import load_pack_index, write_pack_index_v1, write_pack_index_v2, write_pack_index_v3
+
+    entries = sorted((hashlib.sha1(b"idxv %d %d" % (case["salt"], i)).digest(), off, (off * 2654435761) & 0xFFFFFFFF) for i, off in enumerate(case["offsets"]))
+    answers = {}
+    for ver, writer in ((1, write_pack_index_v1), (2, write_pack_index_v2), (3, write_pack_index_v3)):
+        if ver == 1 and max(case["offsets"]) >= 2**32:
+            continue  # v1 has 32-bit offsets only
+        path = os.path.join(ctx.scratch.new("iv"), "v%d.idx" % ver)
+        try:
+            buf = io.BytesIO()
+            writer(buf, entries, b"\x11" * 20)
+            with open(path, "wb") as f:
+                f.write(buf.getvalue())
+            idx = load_pack_index(path, DEFAULT_OBJECT_FORMAT)
+            try:
+                got = []
+                for name, off, crc in entries:
+                    try:
+                        got.append(idx.object_offset(name))
+                    except Exception as e:
+                        got.append(type(e).__name__)
+                listed = [(e[0], e[1]) for e in idx.iterentries()]
+            finally:
+                idx.close()
+        except Exception as e:
+            got, listed = type(e).__name__, None
+        answers[ver] = got
+        want = [off for _, off, _ in entries]
+        if got != want or (listed is not None and listed != [(n, o) for n, o, _ in entries]):
+            bad = [(w, g) for w, g in zip(want, got) if w != g][:3] if isinstance(got, list) else got
+            ctx.fail(f"C14:idx-versions:v{ver}:wrong-offset", f"index v{ver} written by dulwich answers {bad!r} (written, read back) for offsets {want}; "
+                     f"listing {'agrees' if listed == [(n, o) for n, o, _ in entries] else 'differs'}", check, case)
+    ctx.case(("idxv", case["salt"], tuple(case["offsets"])), nontrivial=any(o >= 2**31 for o in case["offsets"]),
+             labels=["idx-versions", "idx-versions:" + ("64-bit-table" if any(o >= 2**31 for o in case["offsets"]) else "inline-only")],
+             sample=dict(offsets=case["offsets"], answers={str(k): (v if isinstance(v, str) else "ok") for k, v in answers.items()}) if case["salt"] % 40 == 1 else None)
+
+
+def _part_idx_versions(ctx, k):
+    import itertools
+    import random
+
+    rnd = random.Random(k * 7919 + ctx.seed)
+    # every single boundary offset alone, every pair, and drawn mixtures with ordinary offsets
+    cases = [[o] for o in _IDX_OFFSETS] + [list(p) for p in itertools.combinations(_IDX_OFFSETS, 2)]
+    for _ in range(60):
+        cases.append(sorted(set(rnd.sample(_IDX_OFFSETS, rnd.randint(1, 4)) + [rnd.randrange(12, 2**31) for _ in range(rnd.randint(0, 5))])))
+    for n, offs in enumerate(cases):
+        if n % 4 == k:
+            check_index_versions(ctx, dict(salt=n, offsets=offs))
+
+
 def replay(ctx, check, case):
+    if check == "idx-versions":
+        check_index_versions(ctx, case)
+        return
     if check == "refs-race":
         # pinned schedules go stale with the code: explore the pair
         _part_refs_race(ctx, (case["reader"], case["writer"], 400))
